@@ -48,6 +48,11 @@ let run () =
         (match uvarint_decode (bz b) with
          | Some (v, r) -> Printf.printf "%s %s rest=%d\n" id (string_of_z v) (List.length r)
          | None -> Printf.printf "%s error\n" id)
+      | [id; "DS"; z] -> Printf.printf "%s %s\n" id (hx (dec_to_text (z_of_string z)))
+      | [id; "DP"; b] ->
+        (match text_to_dec (bz b) with
+         | Some v -> Printf.printf "%s %s\n" id (string_of_z v)
+         | None -> Printf.printf "%s error\n" id)
       | id :: "SJ" :: toks -> let (j, _) = parse_tree toks in Printf.printf "%s %s\n" id (hx (sort_json j))
       | id :: "SD" :: c :: e :: m :: toks ->
         let (fee, r) = parse_tree toks in
